@@ -1,6 +1,8 @@
 import DimodModel.Cpp
 import DimodModel.CppCover
 import DimodModel.CheckedCqm
+import DimodModel.CyCqmVars
+import DimodModel.CqmChangeVartype
 import DimodModel.Wire
 open Wire
 
@@ -205,6 +207,17 @@ def cqmLine (ws : List String) : String :=
       let obj ← parseExprC obj
       let cons ← (if cons = "-" then [] else cons.splitOn ";").mapM parseExprC
       pure { vt := vts, lb := lb, ub := ub, obj := obj, cons := cons.map fun e => ({ e := e } : Cons) }
+    match m?, op with
+    | some m, ["ccv", t, v] =>
+      -- `change_vartype(t, v)` as coded (`Cqm.changeVartypeC`, checked by `Cqm.changeVartypeC?`)
+      match vt4? t, v.toNat? with
+      | some t, some v =>
+        match m.changeVartypeC? t v with
+        | some (_, true) => "THROW"
+        | some (_, false) => showCqmC (m.changeVartypeC t v).1
+        | none => "UB"
+      | _, _ => "skip"
+    | _, _ =>
     match m?, parseCOp op with
     | some m, some o =>
       match m.cstep? o with
@@ -220,12 +233,36 @@ def step (s : Slots) (ws : List String) : Option (Slots × List String) :=
   | w :: _ => if w = "load" || Cpp.driverOps.contains w then stepCore s ws else none
   | [] => none
 
+/-- `cyav LABELS INFO VT LB UB LBGIVEN UBGIVEN ELEMS`: `cyConstrainedQuadraticModel.add_variables` as coded
+    (`CyCqm.Vars.addVariables`); LABELS / ELEMS = labels joined by `,` (`-` = none, an element `!` = an unhashable object),
+    INFO = `V~lb~ub` per variable; answer `ok|value|type|runtime LABELS INFO` -/
+def cyavLine (ws : List String) : String :=
+  let showV (m : CyCqm.Vars) : String :=
+    (if m.labels.isEmpty then "-" else String.intercalate "," (m.labels.map showLabel)) ++ " " ++
+    (if m.info.isEmpty then "-" else String.intercalate "," (m.info.map fun r => vtChar r.1 ++ "~" ++ showRat r.2.1 ++ "~" ++ showRat r.2.2))
+  match ws with
+  | [ls, inf, vt, lb, ub, lg, ug, es] =>
+    let info? := (csv inf).mapM fun t => match t.splitOn "~" with
+      | [v, a, b] => do pure ((← vt? v), (← parseRat? a), (← parseRat? b))
+      | _ => none
+    let elems? := (csv es).mapM fun t => if t = "!" then some none else (parseLabel? t).map some
+    match (csv ls).mapM parseLabel?, info?, vt? vt, parseRat? lb, parseRat? ub, elems? with
+    | some labels, some info, some vt, some lb, some ub, some es =>
+      let r := ({ labels := labels, info := info } : CyCqm.Vars).addVariables vt lb ub (lg == "1") (ug == "1") es
+      (match r.2 with | none => "ok" | some .value => "value" | some .type => "type" | some .runtime => "runtime" | some .index => "index")
+        ++ " " ++ showV r.1
+    | _, _, _, _, _, _ => "bad-op"
+  | _ => "bad-op"
+
 partial def loop (h : IO.FS.Stream) (s : Slots) : IO Unit := do
   let line ← h.getLine
   if line.isEmpty then return ()
   let ws := (line.trimAscii.toString.splitOn " ").filter (· ≠ "")
   if ws.head? = some "cx" then
     IO.println (cqmLine (ws.drop 1))
+    loop h s
+  else if ws.head? = some "cyav" then
+    IO.println (cyavLine (ws.drop 1))
     loop h s
   else
   match step s ws with
